@@ -184,6 +184,7 @@ def make_engine(repo):
                  hooks=NoLock(), exc_classes=('Timeout', 'ConnectionClosed', 'MessageTooLong'))
     for c in ALL:
         eng.register_class(c)
+    eng.cvc5_mode = 'first'
     eng.feas_ms = 250      # string path conditions: an undecided feasibility test keeps the path (sound, only slower)
     return eng
 
